@@ -7,6 +7,7 @@ import itertools
 
 from hypothesis import strategies as st
 
+from .. import refcodec as rc
 from .. import vloop
 from ..devsim import SimDevice
 from ..model_ac import ModelAC
@@ -19,7 +20,7 @@ RULE = ("Part A (exhaustive): retry budget r in 1..4 (quick: 1..3); each transmi
         "(transmissions at 0,2,4,.. while nothing has arrived; return at the earliest arrival T*<2r with floor(T*/2)+1 "
         "byte-identical transmissions, else TimeoutError at 2r after exactly r) compared on transmission count, virtual return "
         "time and outcome; with r=3 also Device._send_command()==[] and refresh() -> online False on timeout; a quarter of the patterns run with a configured connection lifetime that expires mid-exchange; on V3 a quarter of the patterns with unanswered transmissions have the device emit marker-free bytes instead of staying silent (no response by C04's skipping rule; the reference model is unchanged). Part B "
-        "(exhaustive): every single fault and ordered pair from {drop, drop incl. handshake, error packet, garbage, peer close, peer reset (mid-exchange or while idle), "
+        "(exhaustive): every single fault and ordered pair from {drop, drop incl. handshake, error packet, error packet also in reply to the re-authentication handshake, garbage, peer close, peer reset (mid-exchange or while idle), "
         "connect refused, connect hangs, cancel at each protocol phase} x {V2,V3} x {fresh object, established connection}, "
         "followed by a clean exchange immediately or after a pause, with or without a configured connection lifetime (1..60 s), at LAN level or through AirConditioner.refresh() (on V3 the user's single authenticate() call may have been abandoned during the 1 s settle pause after the handshake): faulty exchange ends within contract (frames / "
         "ProtocolError / TimeoutError / cancellation) and the clean exchange returns the device's reply (fresh handshake on V3 "
@@ -32,7 +33,7 @@ TOKEN = hashlib.sha512(b"c08 token").digest()
 KEY = hashlib.sha256(b"c08 key").digest()
 FRAME = bytes.fromhex("aa21ac8d000000000003418100ff03ff000200000000000000000000000003016971")
 DELAYS = [0.05, 1.0, 1.95, 2.05, 3.0, 3.95, 4.05, 6.5]
-FAULTS = ["drop", "drop_hs", "error", "garbage", "close", "reset", "idle_reset", "refuse", "hang",
+FAULTS = ["drop", "drop_hs", "error", "error_hs", "garbage", "close", "reset", "idle_reset", "refuse", "hang",
           "cancel:hs_wait", "cancel:hs_pause", "cancel:data_wait", "cancel:retransmit"]
 
 
@@ -235,6 +236,8 @@ def check_faults(case: dict):
             k = mode["kind"]
             if k in ("drop", "drop_hs", "cancel:retransmit"):
                 return ("drop",)
+            if k == "error_hs":
+                return ("error",)       # (data requests on a still-authenticated connection get the error packet too)
             if k == "error":
                 return ("error",)
             if k == "garbage":
@@ -250,6 +253,10 @@ def check_faults(case: dict):
 
         def hs(conn, p):
             if mode["kind"] == "drop_hs":
+                return
+            if mode["kind"] == "error_hs":
+                # the unit answers the (re-)authentication handshake with an error packet
+                conn.send_stream(rc.v3_error_packet(), delay=dev.latency)
                 return
             orig_hs(conn, p)
         dev._handshake = hs
